@@ -281,3 +281,345 @@ var (
 	ErrSimGeneric           = errors.New("simulated i/o failure")
 	ErrSimEOF               = io.EOF
 )
+
+// ---------------------------------------------------------------------------
+// Simulated byte stream (TCP-like). Two StreamEnds form a connection. Bytes
+// written on one end sit "in flight" until the scheduler fires the delivery
+// event of the other end, which moves a tape-chosen number of bytes (1..all)
+// to the reader: arbitrary re-segmentation and arbitrary timing relative to
+// the reader's deadlines. EOF (CloseWrite/Close) and resets travel the same way.
+
+type StreamEnd struct {
+	Name string
+	s    *Sim
+	peer *StreamEnd
+	mu   sync.Mutex
+
+	readable []byte // delivered, not yet read
+	inflight []byte // written by the peer, not yet delivered
+	eofSent  bool   // peer closed its write side (EOF follows the in-flight bytes)
+	eofSeen  bool   // EOF delivered
+	resetErr error  // connection reset (delivered immediately)
+	readErrs []error
+
+	closed      bool
+	writeClosed bool
+	waiters     []chan struct{}
+	rdl, wdl    time.Time
+
+	// observations
+	Written         []byte // everything this end wrote successfully
+	ReadTotal       int
+	CloseCount      int
+	CloseWriteCount int
+	DeadlineSets    int
+	EOFReadAt       time.Duration // simulated time at which Read first returned io.EOF (-1: never)
+	ErrReadAt       time.Duration
+	LastReadErr     error
+
+	// WriteHook may shorten or fail a write (nil: full success).
+	WriteHook func(b []byte) (n int, err error)
+	// AutoDeliver: bytes become readable at once (no re-segmentation event needed).
+	AutoDeliver bool
+	// MaxChunk limits a single delivery (0: no limit).
+	MaxChunk int
+}
+
+// NewStreamPair creates a connection a<->b and registers both delivery events.
+func NewStreamPair(s *Sim, nameA, nameB string) (*StreamEnd, *StreamEnd) {
+	a := &StreamEnd{Name: nameA, s: s, EOFReadAt: -1, ErrReadAt: -1}
+	b := &StreamEnd{Name: nameB, s: s, EOFReadAt: -1, ErrReadAt: -1}
+	a.peer, b.peer = b, a
+	for _, e := range []*StreamEnd{a, b} {
+		e := e
+		s.AddEvent(&Event{Name: "deliver:" + e.Name, Enabled: e.deliverable, Fire: e.deliverSome})
+	}
+	return a, b
+}
+
+func (e *StreamEnd) wake() {
+	for _, w := range e.waiters {
+		close(w)
+	}
+	e.waiters = nil
+}
+
+func (e *StreamEnd) deliverable() bool {
+	e.mu.Lock()
+	defer e.mu.Unlock()
+	return !e.AutoDeliver && (len(e.inflight) > 0 || (e.eofSent && !e.eofSeen))
+}
+
+// InFlight reports bytes written by the peer and not yet delivered.
+func (e *StreamEnd) InFlight() int {
+	e.mu.Lock()
+	defer e.mu.Unlock()
+	return len(e.inflight)
+}
+
+func (e *StreamEnd) Unread() int {
+	e.mu.Lock()
+	defer e.mu.Unlock()
+	return len(e.readable)
+}
+
+func (e *StreamEnd) deliverSome() {
+	e.mu.Lock()
+	defer e.mu.Unlock()
+	if len(e.inflight) > 0 {
+		n := len(e.inflight)
+		max := n
+		if e.MaxChunk > 0 && max > e.MaxChunk {
+			max = e.MaxChunk
+		}
+		// favour: everything (0), else a cut point
+		k := max
+		if max > 1 {
+			switch e.s.T.Choose(4) {
+			case 1:
+				k = 1
+			case 2:
+				k = 1 + e.s.T.Choose(max)
+			case 3:
+				k = (max + 1) / 2
+			}
+		}
+		e.readable = append(e.readable, e.inflight[:k]...)
+		e.inflight = e.inflight[k:]
+	} else if e.eofSent && !e.eofSeen {
+		e.eofSeen = true
+	}
+	e.wake()
+}
+
+// DeliverAll moves everything in flight (and a pending EOF) to the reader.
+func (e *StreamEnd) DeliverAll() {
+	e.mu.Lock()
+	e.readable = append(e.readable, e.inflight...)
+	e.inflight = nil
+	if e.eofSent {
+		e.eofSeen = true
+	}
+	e.wake()
+	e.mu.Unlock()
+}
+
+func (e *StreamEnd) InjectReadErr(err error) {
+	e.mu.Lock()
+	e.readErrs = append(e.readErrs, err)
+	e.wake()
+	e.mu.Unlock()
+}
+
+// Reset aborts the connection: both ends fail from now on.
+func (e *StreamEnd) Reset(err error) {
+	for _, x := range []*StreamEnd{e, e.peer} {
+		x.mu.Lock()
+		if x.resetErr == nil {
+			x.resetErr = err
+		}
+		x.wake()
+		x.mu.Unlock()
+	}
+}
+
+func (e *StreamEnd) Read(p []byte) (int, error) {
+	if len(p) == 0 {
+		return 0, nil
+	}
+	for {
+		e.mu.Lock()
+		if e.closed {
+			e.mu.Unlock()
+			return 0, net.ErrClosed
+		}
+		if len(e.readable) > 0 {
+			n := copy(p, e.readable)
+			e.readable = e.readable[n:]
+			e.ReadTotal += n
+			e.mu.Unlock()
+			return n, nil
+		}
+		if len(e.readErrs) > 0 {
+			err := e.readErrs[0]
+			e.readErrs = e.readErrs[1:]
+			e.LastReadErr = err
+			if e.ErrReadAt < 0 {
+				e.ErrReadAt = e.s.Now()
+			}
+			e.mu.Unlock()
+			return 0, err
+		}
+		if e.resetErr != nil {
+			err := e.resetErr
+			e.LastReadErr = err
+			if e.ErrReadAt < 0 {
+				e.ErrReadAt = e.s.Now()
+			}
+			e.mu.Unlock()
+			return 0, err
+		}
+		if e.eofSeen {
+			if e.EOFReadAt < 0 {
+				e.EOFReadAt = e.s.Now()
+			}
+			e.mu.Unlock()
+			return 0, io.EOF
+		}
+		dl := e.rdl
+		if !dl.IsZero() && !time.Now().Before(dl) {
+			e.LastReadErr = ErrSimTimeout
+			if e.ErrReadAt < 0 {
+				e.ErrReadAt = e.s.Now()
+			}
+			e.mu.Unlock()
+			return 0, ErrSimTimeout
+		}
+		w := make(chan struct{})
+		e.waiters = append(e.waiters, w)
+		e.mu.Unlock()
+		if dl.IsZero() {
+			<-w
+		} else {
+			tm := time.NewTimer(time.Until(dl))
+			select {
+			case <-w:
+			case <-tm.C:
+			}
+			tm.Stop()
+		}
+		YieldB("simnet.stream-read-woke:" + e.Name)
+	}
+}
+
+func (e *StreamEnd) Write(b []byte) (int, error) {
+	e.mu.Lock()
+	if e.closed || e.writeClosed {
+		e.mu.Unlock()
+		return 0, net.ErrClosed
+	}
+	if e.resetErr != nil {
+		err := e.resetErr
+		e.mu.Unlock()
+		return 0, err
+	}
+	hook := e.WriteHook
+	e.mu.Unlock()
+	n, err := len(b), error(nil)
+	if hook != nil {
+		n, err = hook(b)
+	}
+	if n > 0 {
+		e.mu.Lock()
+		e.Written = append(e.Written, b[:n]...)
+		e.mu.Unlock()
+		p := e.peer
+		p.mu.Lock()
+		if p.AutoDeliver {
+			p.readable = append(p.readable, b[:n]...)
+			p.wake()
+		} else {
+			p.inflight = append(p.inflight, b[:n]...)
+		}
+		p.mu.Unlock()
+	}
+	return n, err
+}
+
+// CloseWrite sends EOF to the peer after the bytes already written.
+func (e *StreamEnd) CloseWrite() error {
+	e.mu.Lock()
+	e.CloseWriteCount++
+	already := e.writeClosed
+	e.writeClosed = true
+	e.mu.Unlock()
+	if !already {
+		p := e.peer
+		p.mu.Lock()
+		p.eofSent = true
+		if p.AutoDeliver {
+			p.eofSeen = true
+			p.wake()
+		}
+		p.mu.Unlock()
+	}
+	return nil
+}
+
+func (e *StreamEnd) CloseRead() error { return nil }
+
+func (e *StreamEnd) Close() error {
+	e.mu.Lock()
+	e.CloseCount++
+	first := !e.closed
+	e.closed = true
+	wc := e.writeClosed
+	e.writeClosed = true
+	e.wake()
+	e.mu.Unlock()
+	if first && !wc {
+		p := e.peer
+		p.mu.Lock()
+		p.eofSent = true
+		if p.AutoDeliver {
+			p.eofSeen = true
+		}
+		p.wake()
+		p.mu.Unlock()
+	}
+	return nil
+}
+
+func (e *StreamEnd) IsClosed() bool {
+	e.mu.Lock()
+	defer e.mu.Unlock()
+	return e.closed
+}
+
+func (e *StreamEnd) WriteClosed() bool {
+	e.mu.Lock()
+	defer e.mu.Unlock()
+	return e.writeClosed
+}
+
+func (e *StreamEnd) SetDeadline(t time.Time) error {
+	e.SetReadDeadline(t)
+	return e.SetWriteDeadline(t)
+}
+
+func (e *StreamEnd) SetReadDeadline(t time.Time) error {
+	e.mu.Lock()
+	e.rdl = t
+	e.DeadlineSets++
+	e.wake()
+	e.mu.Unlock()
+	return nil
+}
+
+func (e *StreamEnd) SetWriteDeadline(t time.Time) error {
+	e.mu.Lock()
+	e.wdl = t
+	e.mu.Unlock()
+	return nil
+}
+
+// ReadDeadline returns the currently armed read deadline (zero: none).
+func (e *StreamEnd) ReadDeadline() time.Time {
+	e.mu.Lock()
+	defer e.mu.Unlock()
+	return e.rdl
+}
+
+type simAddr string
+
+func (a simAddr) Network() string { return "tcp" }
+func (a simAddr) String() string  { return string(a) }
+
+// NetConn wraps a StreamEnd as a net.Conn (it is deliberately not a *net.TCPConn).
+type StreamNetConn struct {
+	*StreamEnd
+	Local, Remote net.Addr
+}
+
+func (c *StreamNetConn) LocalAddr() net.Addr  { return c.Local }
+func (c *StreamNetConn) RemoteAddr() net.Addr { return c.Remote }
